@@ -41,6 +41,27 @@ add('C16', 'TLC exhaustive over string alphabets: machine re-run on its own outp
     'mutated and random sources are validated by TLC.',
     'Bounded scopes; side conditions (C08 + no bare sizing prefix) decided on the reference run.', '7 (C16)')
 
+add('C18', 'TLC breadth-first exploration of a Python-list reference model (Args.tla) + replay of one witness path per '
+    '(state, operation) on the real TexArgs + TLC trace validation (ArgsTrace) of recorded random walks',
+    'The reference model is the property itself (a Python list under the library\'s equality). TLC enumerates every list state '
+    'up to a length bound and every operation with every index; each transition is replayed along a witness path on a real '
+    'TexArgs owned by a command (result, contents, identities, str(args), str(owner) compared after every call); long random '
+    'walks recorded from the real class are validated event by event by TLC.',
+    'Bounded list length and value pool (incl. textual twins, coercible and malformed strings); pop with explicit index.', '7 (C18)')
+add('C19', 'TLC: lexer machine over all short strings (Partition, NonEmptyTokens, TokPosTrue, progress, determinism) + replay '
+    'on the real tokenizer + TLC validation of recorded tokens (TokensPartition) and of the real category of every code point',
+    'All 1,114,112 code points are categorised by the real code and TLC checks the recorded ranges against the table; TLC '
+    'enumerates every string over one representative per category up to a length bound, checks the partition invariants in '
+    'every lexer state, and the token lists are replayed on the real tokenizer; tokens recorded on corpus and random strings '
+    'are validated by TLC.',
+    'String length bound; trusted: projection of tokens (text, position, category).', '7 (C19)')
+add('C20', 'TLC breadth-first exploration of a list+index reference model (Buffer.tla) + replay of one witness path per '
+    '(state, operation) on the real Buffer (string-, token-backed, tokenizer output) + TLC trace validation (BufferTrace)',
+    'The reference model is the property itself (a list with an integer index). TLC enumerates all short underlying sequences, '
+    'cursor positions and operations; every transition is replayed along a witness path on real buffers comparing result and '
+    'cursor after every call; random long in-range walks recorded from the real class are validated event by event by TLC.',
+    'In-range moves only; bounded sequence length and operation alphabet.', '7 (C20)')
+
 NOT_YET = 'check not built yet in this round (planned, see DESIGN.md section 7)'
 
 
